@@ -57,9 +57,21 @@ struct PtrTable {
   std::atomic<uintptr_t>* k;
   std::atomic<uint32_t>* v;
   std::atomic<int64_t> live {0};
-  PtrTable() : k(new std::atomic<uintptr_t>[N]), v(new std::atomic<uint32_t>[N]) { clear(); }
-  void clear() {
+  // indices ever written since the last clear(): clear() touches only those (a full sweep of 2^20 entries per
+  // episode made the thorough tier crawl)
+  std::atomic<uint32_t>* used;
+  std::atomic<size_t> nused {0};
+  PtrTable() : k(new std::atomic<uintptr_t>[N]), v(new std::atomic<uint32_t>[N]), used(new std::atomic<uint32_t>[N]) {
     for (size_t i = 0; i < N; ++i) { k[i].store(0, std::memory_order_relaxed); v[i].store(0, std::memory_order_relaxed); }
+  }
+  void clear() {
+    size_t n = std::min(nused.load(std::memory_order_relaxed), N);
+    for (size_t j = 0; j < n; ++j) {
+      size_t i = used[j].load(std::memory_order_relaxed);
+      k[i].store(0, std::memory_order_relaxed);
+      v[i].store(0, std::memory_order_relaxed);
+    }
+    nused.store(0, std::memory_order_relaxed);
     live.store(0, std::memory_order_relaxed);
   }
   static size_t h(uintptr_t p) { return size_t(((p >> 6) * 0x9e3779b97f4a7c15ULL) >> 44); }
@@ -77,6 +89,10 @@ struct PtrTable {
       uintptr_t c = k[i].load(std::memory_order_relaxed);
       while (c == 0 || c == 1) {
         if (k[i].compare_exchange_weak(c, p, std::memory_order_relaxed)) {
+          if (c == 0) {  // first use of this slot since clear() (a tombstone was recorded when it was first used)
+            size_t j = nused.fetch_add(1, std::memory_order_relaxed);
+            if (j < N) used[j].store(uint32_t(i), std::memory_order_relaxed);
+          }
           v[i].store(0, std::memory_order_relaxed);
           live.fetch_add(1, std::memory_order_relaxed);
           return long(i);
